@@ -233,6 +233,28 @@ func TestC11(t *testing.T) {
 	enum("enum-bool", gen.BoolAlphabet(), focusLen+1)
 	enum("enum-unary", gen.UnaryAlphabet(), focusLen+map[bool]int{false: 0, true: 1}[cfg.Thorough()])
 
+	// leaf forms: every unusual way to write one term (ill-formed and odd regexps,
+	// wildcard corner cases, quoted look-alikes, number look-alikes, keyword
+	// look-alikes, a range without a field) in every operand position of a few small
+	// queries. The option must not change which of them are accepted, whatever the
+	// term's text would mean to a regexp engine or a number parser.
+	leafForms := []string{"/[a/", "/a(b/", "/*a/", "/a{2,1}/", "/(/", `/\\/`, "/a b/", "//", "/+/", `/\//`, "*", "?", "**", "a*?", `\*`, `a\?b*`, `""`, `"*"`, `"/x/"`, `"a b"`, `"AND"`, "'s t'",
+		"NaN", "Inf", "-Inf", "1e400", "-0", "0x10", "010", ".5", "5.", "-5", "1e5", "to", "and", "nOt", "T", "null", "true", "[1 TO 5]", "{a TO b}", "[* TO *]", "x\\ y", "é", "a-b", "a.b", "-a", "2024-01-01"}
+	leafCtx := []string{"%s", "a AND %s", "%s OR a", "NOT %s", "+%s b", "-%s", "(%s OR z)^2", "%s~2", "%s^3 a", "f:%s", "f:%s %s", "%s %s", "(%s)", "f:(%s OR b) %s", "a:b %s c:d", "f:[1 TO 5] %s", "NOT (%s AND f:%s)", "f:>%s", "%s f:>=%s"}
+	st.Stream("leaf-forms", true, fmt.Sprintf("%d ways to write a term x %d small queries with the term in operand and in value position x default fields {dflt, my dflt}", len(leafForms), len(leafCtx)))
+	idx := 0
+	for _, lf := range leafForms {
+		for _, cx := range leafCtx {
+			q := strings.ReplaceAll(cx, "%s", lf)
+			for _, df := range []string{"dflt", "my dflt"} {
+				if idx%cfg.NShards == cfg.Shard {
+					run("leaf-forms", TokCase{Raw: []byte(q), DF: df})
+				}
+				idx++
+			}
+		}
+	}
+
 	// size sweep: the same shape at every size (limits, thresholds, off-by-one)
 	maxN := 640
 	if cfg.Thorough() {
